@@ -34,7 +34,10 @@ META = {
     "rule": "sources: hand-written shapes + seeded grammar-generated programs (every statement / expression kind, all "
             "literal spellings, call sugar, both table separators, `;`) laid out with random trivia in every gap "
             "(spaces, tabs, LF / CRLF, blank lines, line comments, long comments of 3 levels, EOF with and without "
-            "newline), plus dense and plain layouts; non-trivial when the source has at least one comment or line "
+            "newline), plus dense and plain layouts; every separated list darklua stores tokens for (local / const / assign / "
+            "return / for / arguments / parameters / tables / type lists) with independent trivia on each separator; "
+            "statements starting with a parenthesis after statements that do not end in a prefix; byte order marks "
+            "processed in place; non-trivial when the source has at least one comment or line "
             "break inside a statement; distinct by source bytes",
     "assumptions": ["inputs parse (darklua accepts them); inputs with type syntax are byte-compared too (no difference "
                     "was observed inside annotations)"],
@@ -159,6 +162,8 @@ def classify(src, out):
     """name the first difference between source and output (symptom side, no model involved)"""
     n = min(len(src), len(out))
     k = next((i for i in range(n) if src[i] != out[i]), n)
+    if src.startswith("#!") and G.BOM in src.split("\n", 2)[1][:1] and not out.startswith("#!"):
+        return "dropped:shebang-followed-by-bom", k
     if k < len(out) and out[k] == " " and k > 0 and out[k + 1:k + 2] == src[k:k + 1] and k < len(src) \
             and sbws(src[k - 1], src[k]):
         a, b = src[k - 1], src[k]
@@ -236,6 +241,10 @@ def make_sources(rng, tier):
         out.append(("fixed", s))
     for s in G.TYPED_SOURCES:
         out.append(("typed", s))
+    for label, src in G.separator_sources(rng, 51 if quick else 510):
+        out.append(("separators", src))
+    for label, src in G.paren_statement_sources(rng, 42 if quick else 420):
+        out.append(("paren-statement", src))
     n = 90 if quick else 1500
     for i in range(n):
         mode = ["random", "random", "random", "dense", "plain"][i % 5]
@@ -321,8 +330,29 @@ def run(ctx):
                "theorem evaluated on the recorded requests", len(cases), sum(1 for c in cases if nontrivial(c[2])),
                [{"source": c[2][:100], "identical": c[3] == c[2]} for c in cases[30:33]],
                identical=identical, differing=len(cases) - identical, model_mismatches=len(model_bad),
+               by_layout=dict((lab, sum(1 for c in cases if c[1] == lab)) for lab in sorted(set(c[1] for c in cases))),
                rejected_by_darklua=len(uniq) - len(cases), rejected_kinds=errors,
                hypothesis_false_but_identical=len(theorem_gap))
+
+    # ---- byte order marks: processed IN PLACE; darklua either rejects the file and leaves it untouched, or
+    # accepts it and writes it back byte for byte; a panic is a failure
+    rows = [{"id": i, "config": NO_RULES, "src": s, "inplace": True} for i, s in enumerate(G.BOM_SOURCES)]
+    bres = run_harness(rows)
+    untouched = accepted = 0
+    for i, s in enumerate(G.BOM_SOURCES):
+        r = bres[i]
+        if r.get("panic"):
+            ctx.violation("darklua panicked on a source with a byte order mark", {"source": s})
+        elif not r["ok"] and r.get("after") == s:
+            untouched += 1
+        elif r["ok"] and r.get("after") == s:
+            accepted += 1
+        else:
+            key, at = classify(s, r.get("after") or "")
+            failing.setdefault(key, []).append((s, r.get("after") or "", "in place: %s" % ("accepted" if r["ok"] else "rejected: " + r.get("err", "")[:80]), at))
+    ctx.stream("byte order mark (start of file, after a shebang, inside a string / comment), processed in place: rejected and "
+               "untouched, or accepted and byte-identical", len(G.BOM_SOURCES), len(G.BOM_SOURCES),
+               [{"source": G.BOM_SOURCES[0]}], rejected_and_untouched=untouched, accepted_and_identical=accepted)
 
     # ---- verdicts per class of difference; the smallest source of each class is shrunk for the replay
     def still(key):
